@@ -7,7 +7,9 @@ Record case := {
   c_service : string;       (* name of the extracted service the scenario exercises *)
   c_scenario : string;
   c_race : bool;            (* the Go race detector reported a data race (or the runtime aborted on concurrent map access) *)
-  c_hang : bool             (* the scenario did not finish: goroutines blocked for ever (a leaked / re-acquired lock) *)
+  c_hang : bool;            (* the scenario did not finish: goroutines blocked for ever (a leaked / re-acquired lock) *)
+  c_crash : bool            (* a panic raised in Vouch's own code aborted the scenario: an overlap showed an operation
+                               a state that no sequential order of the operations produces *)
 }.
 
 Definition service_ok (name : string) : bool :=
@@ -16,9 +18,10 @@ Definition service_ok (name : string) : bool :=
   | None => false
   end.
 
-(* the property on the observed run alone: no unsynchronised conflicting access was observed and
-   every operation finished (no lock was left held) *)
-Definition P_b (c : case) : bool := negb (c_race c) && negb (c_hang c).
+(* the property on the observed run alone: no unsynchronised conflicting access was observed,
+   every operation finished (no lock was left held), and no operation panicked on what it saw.
+   (The skeleton model has no values: it predicts races and hangs, not crashes; `agree` is silent on c_crash.) *)
+Definition P_b (c : case) : bool := negb (c_race c) && negb (c_hang c) && negb (c_crash c).
 
 Definition service_known (name : string) : bool :=
   existsb (fun '(n, _, _, _, _) => String.eqb n name) services.
